@@ -659,7 +659,7 @@ def coreFailEnd : List Label := coreFail ++
    .rootEnd .ultimate .done, .rootEnd .coreWatcher .cancelled, .scWake, .rootEnd .poster .cancelled,
    .rootEnd .admChain .cancelled, .rootEnd .admValidating .cancelled, .rootEnd .admMutating .cancelled,
    .rootEnd .admServer .cancelled, .rootEnd .nsObserver .cancelled, .rootEnd .resObserver .cancelled,
-   .rootStopping .orchestrator false, .rootEnd .orchestrator .cancelled,
+   .rootStopping .orchestrator false, .orchStopPingers, .rootEnd .orchestrator .cancelled,
    .rootEnd .daemonKiller .cancelled, .scWaitRootsEnd, .scStopCore, .scCoreStopped,
    .rootEnd .startupCleanup .failed, .rtHungWait, .rtStopHung, .rtExit .raised]
 
@@ -812,7 +812,7 @@ def repeatedCancelRun : List Label :=
    .rootEnd .ultimate .done, .rootEnd .coreWatcher .cancelled, .rootEnd .poster .cancelled,
    .rootEnd .admChain .cancelled, .rootEnd .admValidating .cancelled, .rootEnd .admMutating .cancelled,
    .rootEnd .admServer .cancelled, .rootEnd .nsObserver .cancelled,
-   .rootStopping .orchestrator false, .rootEnd .orchestrator .cancelled,
+   .rootStopping .orchestrator false, .orchStopPingers, .rootEnd .orchestrator .cancelled,
    .delay 16,
    .rtCancel,
    .scCut, .rootEnd .daemonKiller .cancelled,
@@ -843,7 +843,7 @@ theorem repeated_cancel_skips_cleanup_witness :
     tasks — the orchestrator a second time -/
 def doubleCancelPrefix : List Label :=
   startAll ++ [.subSpawn .watcher, .subSpawn .pinger, .subStopping 0 true, .subEnd 0 .failed,
-               .rootStopping .orchestrator true, .subStopping 1 false,
+               .rootStopping .orchestrator true, .orchStopPingers, .subStopping 1 false,
                .setStopFlag, .rootEnd .stopFlag .done, .rtStopRoots]
 
 /-- HISTORICAL WITNESS (finding C20-F8, repaired by /repo ab6fb15; corpus `C20-F8`, `C20-F8_hang`: regressions now) — about
@@ -907,8 +907,9 @@ theorem historical_cancel_while_stopping_abandons_tasks_witness :
 /-! ### What the code does NOT guarantee (witnesses about the current tree), and the repaired C20-F5 -/
 
 /-- a complete run: startup, ready, an observer and the orchestrator with a watcher and a keep-alive task, a worker,
-    a cooperative and a stubborn daemon, a stop flag, everything stopped in order, the cleanup activity, the hung
-    daemon cancelled, normal return. `wok`: whether the withdrawal PATCH succeeds. -/
+    a cooperative and a stubborn daemon, a stop flag, everything stopped in order (the orchestrator: first the watcher, whose
+    handler in flight takes another second, and only then the keep-alive — `orchStopPingers` — and its withdrawal), the
+    cleanup activity, the hung daemon cancelled, normal return. `wok`: whether the withdrawal PATCH succeeds. -/
 def fullRun (wok : Bool) : List Label :=
   startAll ++
   [.act (.task (.root .resObserver)), .subSpawn .watcher, .subSpawn .pinger, .act (.task (.sub 0)),
@@ -918,8 +919,9 @@ def fullRun (wok : Bool) : List Label :=
    .rootEnd .admChain .cancelled, .rootEnd .admValidating .cancelled, .rootEnd .admMutating .cancelled,
    .rootEnd .admServer .cancelled, .rootEnd .nsObserver .cancelled, .rootStopping .resObserver false,
    .rootEnd .resObserver .cancelled, .rootStopping .daemonKiller false, .rootStopping .orchestrator false,
-   .subStopping 0 false, .subStopping 1 false, .withdraw 1 wok, .subEnd 1 .cancelled, .daemonExit 0,
-   .delay 64, .workerEnd 0 .done, .subEnd 0 .cancelled, .rootEnd .orchestrator .cancelled,
+   .subStopping 0 false, .daemonExit 0,
+   .delay 64, .workerEnd 0 .done, .subEnd 0 .cancelled,
+   .orchStopPingers, .subStopping 1 false, .withdraw 1 wok, .subEnd 1 .cancelled, .rootEnd .orchestrator .cancelled,
    .rootEnd .daemonKiller .cancelled, .scWaitRootsEnd, .scStopCore, .coreEnd .cancelled, .scCoreStopped,
    .delay 32, .scCleanupEnd .none, .vaultClosed, .rootEnd .startupCleanup .done,
    .rtHungWait, .delay 320, .rtStopHung, .daemonExit 1, .rtExit .returned]
@@ -941,7 +943,7 @@ def deplRun : List Label :=
    .rootEnd .ultimate .done, .rootEnd .coreWatcher .cancelled, .scWake, .rootEnd .poster .cancelled,
    .rootEnd .admChain .cancelled, .rootEnd .admValidating .cancelled, .rootEnd .admMutating .cancelled,
    .rootEnd .admServer .cancelled, .rootEnd .nsObserver .cancelled, .rootStopping .orchestrator false,
-   .rootEnd .orchestrator .cancelled, .rootEnd .daemonKiller .cancelled, .scWaitRootsEnd, .scStopCore,
+   .orchStopPingers, .rootEnd .orchestrator .cancelled, .rootEnd .daemonKiller .cancelled, .scWaitRootsEnd, .scStopCore,
    .coreEnd .cancelled, .scCoreStopped, .scCleanupEnd .none, .vaultClosed, .rootEnd .startupCleanup .done,
    .rtHungWait, .rtStopHung, .rtExit .returned]
 
@@ -1000,7 +1002,7 @@ def deplRunHead : List Label :=
    .rootEnd .ultimate .done, .rootEnd .coreWatcher .cancelled, .scWake, .rootEnd .poster .cancelled,
    .rootEnd .admChain .cancelled, .rootEnd .admValidating .cancelled, .rootEnd .admMutating .cancelled,
    .rootEnd .admServer .cancelled, .rootEnd .nsObserver .cancelled, .rootStopping .orchestrator false,
-   .rootEnd .orchestrator .cancelled, .rootEnd .daemonKiller .cancelled, .scWaitRootsEnd, .scStopCore,
+   .orchStopPingers, .rootEnd .orchestrator .cancelled, .rootEnd .daemonKiller .cancelled, .scWaitRootsEnd, .scStopCore,
    .coreEnd .cancelled, .scCoreStopped, .scCleanupEnd .none, .vaultClosed, .rootEnd .startupCleanup .done,
    .rtHungWait, .rtStopHung, .rtExit .raised]
 
@@ -1093,7 +1095,7 @@ example : ∃ s, runC cfgHead init (coreFail ++
      .rootEnd .ultimate .done, .scWake, .rootEnd .poster .cancelled, .rootEnd .admChain .cancelled,
      .rootEnd .admValidating .cancelled, .rootEnd .admMutating .cancelled, .rootEnd .admServer .cancelled,
      .rootEnd .nsObserver .cancelled, .rootEnd .resObserver .cancelled, .rootStopping .orchestrator false,
-     .rootEnd .orchestrator .cancelled, .rootEnd .daemonKiller .cancelled, .scWaitRootsEnd, .scStopCore,
+     .orchStopPingers, .rootEnd .orchestrator .cancelled, .rootEnd .daemonKiller .cancelled, .scWaitRootsEnd, .scStopCore,
      .scCoreStopped, .delay 32, .scCleanupEnd .none, .vaultClosed, .rootEnd .startupCleanup .failed,
      .rtHungWait, .delay 320, .rtStopHung, .waiterEnd, .rtExit .raised]) = some s
     ∧ s.rt = .exited ∧ s.result = some .raised ∧ s.cleanupBegun = true ∧ s.t0 = some 0 ∧ s.exitAt = some 352 :=
